@@ -165,8 +165,10 @@ impl<'a> Gen<'a> {
         }
         let r = self.rng.gen_range(0..10);
         if cands.is_empty() || r == 0 {
-            let k = self.rng.gen_range(0..4);
+            let k = if self.profile == Profile::Full { self.rng.gen_range(0..6) } else { self.rng.gen_range(0..4) };
             return match k {
+                4 => Opnd::Ttl,
+                5 => Opnd::Timestamp,
                 0 => lit_s("a"),
                 1 => lit_n(self.rng.gen_range(0..3)),
                 2 => Opnd::Init,
@@ -280,6 +282,11 @@ impl<'a> Gen<'a> {
             return (Instr::Never, e);
         }
         if r < 88 && fallible_ok {
+            if self.profile == Profile::Full && self.chance(0.4) {
+                // re-raise the last / the current error (an invalid error object when there is none)
+                let a = if self.chance(0.5) { Opnd::LastError { lens: vec![] } } else { Opnd::Error { lens: vec![] } };
+                return (Instr::Fail { a, b: Opnd::EmptyArr }, e);
+            }
             return (Instr::Fail { a: lit_n(self.rng.gen_range(1..5)), b: lit_s("boom") }, e);
         }
         if self.streams_on() && r < 97 && !e.streams.is_empty() {
